@@ -112,6 +112,19 @@ def replay_scenario(ctx, prop, data, exact_of=lambda sc: False, extra_check=None
     return True
 
 
+def replay_nofail(ctx, data, run_fn):
+    """replay of a `no-failing-input-found` record: re-run the property's check; True = it is clean again
+    (no model/implementation divergence on the recorded operations, no violation)."""
+    sub = common.Ctx(ctx.prop, data.get("tier", "quick"), data.get("seed", ctx.seed))
+    run_fn(sub)
+    ops = set(data.get("correspondence_not_checking") or [])
+    bad = [d for d in sub.divergences if d and (not ops or d["op"] in ops)]
+    for d in bad[:3]:
+        ctx.violations.append({"clause": "correspondence", "cause": d["op"], "input": d["input"],
+                               "expected": d["model"], "observed": d["impl"], "size": 0})
+    return not bad
+
+
 def corpus(prop):
     """recorded failing scenarios (run first)."""
     d = os.path.join(common.VERIF, "corpus", prop)
